@@ -121,11 +121,12 @@ DirtyNow(s) == {w \in DOMAIN s.w : \E t \in DOMAIN s.w[w].txs :
                    /\ s.w[w].txs[t].slate \in (s.pool \cup Mined(s)) \cap DOMAIN s.body}
 Step(hv2) == /\ l' = l + 1 /\ st' = S2 /\ hv' = HvIssued(hv2, S2)
              /\ StateMonitors(E, S2, hv2) /\ NoPanic(E)
-             /\ aux' = [aux EXCEPT !.dirty = IF E.ev = "scan" /\ E.res = "ok" THEN (@ \ {E.w}) ELSE @ \cup DirtyNow(S2)]
+             /\ aux' = [aux EXCEPT !.dirty = IF E.ev = "scan" /\ E.res = "ok" THEN (@ \ {E.w}) ELSE @ \cup DirtyNow(S2),
+                                   !.pre = st, !.hvpre = hv, !.ope = E]
 
 TReset == /\ IsEv("reset")
           /\ l' = l + 1 /\ st' = S2 /\ hv' = HvIssued(EmptyHist(DOMAIN S2.w), S2)
-          /\ aux' = [nodeUp |-> TRUE, dirty |-> {}]
+          /\ aux' = [nodeUp |-> TRUE, dirty |-> {}, pre |-> S2, hvpre |-> EmptyHist(DOMAIN S2.w), ope |-> E]
 
 \* ---- init_send --------------------------------------------------------
 InitArgs(e, post) ==
@@ -308,7 +309,7 @@ TMine ==
                  "C15", "PathsUnique", e, "coinbase")
      /\ Step(hv)
 TNode == /\ (IsEv("node_up") \/ IsEv("node_down"))
-         /\ l' = l + 1 /\ st' = S2 /\ hv' = hv /\ aux' = [aux EXCEPT !.nodeUp = (E.ev = "node_up")]
+         /\ l' = l + 1 /\ st' = S2 /\ hv' = hv /\ aux' = [aux EXCEPT !.nodeUp = (E.ev = "node_up"), !.pre = st, !.hvpre = hv, !.ope = E]
 
 \* ---- refresh ----------------------------------------------------------
 \* C04: after a successful refresh the books of the active account equal the chain
@@ -398,16 +399,101 @@ TBuildCoinbase ==
      /\ Ok(e) => MatchState(LastOf(r.steps), e, "BuildCoinbase")
      /\ Step(hv)
 
+\* ---- invoices ---------------------------------------------------------------
+TIssueInvoice ==
+  /\ IsEv("issue_invoice")
+  /\ LET e == E  w == e.w
+         a == [sl |-> e.sl, dest |-> IF Has(e.args, "dest") THEN e.args.dest ELSE "", amt |-> e.args.amt]
+         r == IssueInvoice(st, w, a)
+         newK == (DOMAIN S2.w[w].outs) \ (DOMAIN st.w[w].outs) IN
+     /\ Ok(e) => Check(\A k \in newK : PathFresh(hv, w, k), "C15", "PathsUnique", e, "issue_invoice")
+     /\ (~Ok(e)) => Check(LockedKeys(S2, w) = LockedKeys(st, w), "C01", "ErrPersistsNothing", e, "issue_invoice")
+     /\ Ok(e) => MatchState(LastOf(r.steps), e, "IssueInvoice")
+     /\ Step(hv)
+ProcArgs(e, post) ==
+  LET a == e.args
+      opt(f, d) == IF Has(a, f) THEN a[f] ELSE d
+      cx == IF e.sl \in DOMAIN post.w[e.w].ctxs THEN post.w[e.w].ctxs[e.sl]
+            ELSE [ins |-> {}, outs |-> <<>>, fee |-> 0, acct |-> "a0"]
+      nk == post.w[e.w].idx[post.w[e.w].active].child - st.w[e.w].idx[st.w[e.w].active].child IN
+  [sl |-> e.sl, src |-> opt("src", ""), amt |-> e.amt,
+   sel |-> IF e.sl \in DOMAIN st.w[e.w].ctxs THEN cx.ins \ st.w[e.w].ctxs[e.sl].ins ELSE cx.ins,
+   chg |-> [i \in 1..nk |-> cx.outs[i].v], fee |-> cx.fee, ttl |-> e.ttl, minconf |-> opt("minconf", 1)]
+TProcessInvoice ==
+  /\ IsEv("process_invoice")
+  /\ LET e == E  w == e.w
+         a == ProcArgs(e, S2)
+         r == ProcessInvoice(st, w, a) IN
+     /\ (MustRefuseTtl(st, w, e.ttl)) => Check(~Ok(e) /\ S2.w[w] = st.w[w], "C17", "ExpiredRefused", e, "process_invoice")
+     /\ (MustNotRefuseTtl(st, w, e.ttl)) => Check(e.res # "err:expired", "C17", "NotExpiredUntouched", e, "process_invoice")
+     /\ Ok(e) => Check(SelectAvoidsReserved(st, S2, w, e.sl), "C03", "SelectAvoidsReserved", e, "process_invoice")
+     /\ Ok(e) => Check(LockedKeys(S2, w) = LockedKeys(st, w), "C03", "PayInvoiceLocksNothing", e, "")
+     /\ (~Ok(e)) => Check(DOMAIN S2.w[w].ctxs = DOMAIN st.w[w].ctxs /\ LockedKeys(S2, w) = LockedKeys(st, w),
+                          "C01", "ErrPersistsNothing", e, "process_invoice")
+     /\ Ok(e) => MatchState(LastOf(r.steps), e, "ProcessInvoice")
+     /\ Step(IF Ok(e) THEN HvDone(hv, w, "process_invoice", e.sl) ELSE hv)
+
+\* ---- crash / failing write at a persistent-effect boundary (C06) -----------------
+\* The line before a run of "crash" lines is the completed operation (aux.pre is the
+\* state it started from, st the state it ended in).  Each crash line carries the state
+\* found after re-opening the store, the answers of every query, and the outcome of
+\* cancelling every pending transaction.
+PendingOp(ev) == ev \in {"init_send", "lock", "receive", "finalize", "issue_invoice", "process_invoice", "cancel"}
+\* the model's step program of the operation recorded on the line before
+OpR(e, pre, post) ==
+  CASE e.ev = "init_send" -> IF Ok(e) THEN InitSend(pre, e.w, InitArgs(e, post))
+                             ELSE InitSendErr(pre, e.w, InitArgs(e, post),
+                                    post.w[e.w].idx[post.w[e.w].active].child - pre.w[e.w].idx[pre.w[e.w].active].child)
+    [] e.ev = "lock" -> Lock(pre, e.w, [sl |-> e.sl, stage |-> e.stage, ttl |-> e.ttl, hasproof |-> e.hasproof])
+    [] e.ev = "receive" -> Receive(pre, e.w, [sl |-> e.sl, dest |-> e.dest, amt |-> e.amt, ttl |-> e.ttl,
+                                              hasproof |-> e.hasproof, kernin |-> e.kernin])
+    [] e.ev = "finalize" -> IF e.sl \in DOMAIN pre.w[e.w].ctxs THEN Finalize(pre, e.w, FinalizeArgs(e, pre, post))
+                            ELSE [steps |-> <<>>, res |-> "noctx"]
+    [] e.ev = "cancel" -> Cancel(pre, e.w, [id |-> e.id, sl |-> e.sl], TRUE)
+    [] e.ev = "refresh" -> RefreshFull(pre, e.w)
+    [] e.ev = "build_coinbase" -> BuildCoinbase(pre, e.w, [fees |-> e.fees, h |-> e.h, key |-> e.key])
+    [] e.ev = "issue_invoice" -> IssueInvoice(pre, e.w, [sl |-> e.sl, dest |-> IF Has(e.args, "dest") THEN e.args.dest ELSE "", amt |-> e.args.amt])
+    [] OTHER -> [steps |-> <<>>, res |-> "unmodelled"]
+TCrash ==
+  /\ IsEv("crash")
+  /\ LET e == E  w == e.w
+         O == ObsWorld(e.obs)
+         pre == aux.pre
+         rec == e.recover[w]
+         kind == e.op.ev IN
+     /\ Check(\A i \in DOMAIN e.queries : e.queries[i].res # "panic", "C06", "QueriesTotal", e,
+              e.mode \o ":" \o kind \o ":" \o e.point)
+     /\ (e.mode = "crash") => Check(\A i \in DOMAIN e.reopen : e.reopen[i][2] = "ok", "C06", "StoreLoads", e, kind)
+     /\ (e.mode = "fail") => Check(e.opres # "panic", "C06", "FailingWriteIsError", e, kind \o ":" \o e.point)
+     /\ Readable(e.obs.w[w]) =>
+          /\ Check(CrashConsistent(O, w), "C06", "CrashConsistent", e, e.mode \o ":" \o kind \o ":" \o e.point)
+          /\ Check(\A i \in DOMAIN rec.cancels : rec.cancels[i].res = "ok", "C06", "PendingStillCancellable", e,
+                   e.mode \o ":" \o kind)
+          /\ PendingOp(kind) =>
+                Check(rec.spendable \in {e.base_pre[w].spendable, e.base_post[w].spendable}, "C06", "RecoverByCancel", e,
+                      e.mode \o ":" \o kind \o ":" \o e.point)
+          /\ (~PendingOp(kind)) =>
+                Check(rec.spendable >= e.base_pre[w].spendable, "C06", "RecoverByCancel", e, e.mode \o ":" \o kind)
+     /\ IF ~CheckM THEN TRUE
+        ELSE LET r == OpR(aux.ope, pre, st)
+                 exp == IF e.k = 1 THEN pre ELSE r.steps[e.k - 1] IN
+             /\ CheckMatch(r.res = "unmodelled" \/ Len(r.steps) = e.n, e, "Crash:boundaries:" \o kind)
+             /\ (r.res # "unmodelled" /\ e.k - 1 <= Len(r.steps) /\ e.mode = "crash") =>
+                   IF exp.w = O.w THEN TRUE
+                   ELSE PrintT(<<"NONCONF", ToJson([line |-> l, b |-> e.b, ev |-> e.ev, what |-> "CrashState:" \o kind,
+                                                   diff |-> DiffWorld(exp, O)])>>)
+     /\ l' = l + 1 /\ UNCHANGED <<st, hv, aux>>
+
 \* ---- anything else: observe only ------------------------------------------
 Known == {"reset", "init_send", "lock", "receive", "finalize", "cancel", "post", "mine", "node_up", "node_down",
-          "refresh", "create_account", "set_active", "build_coinbase"}
+          "refresh", "create_account", "set_active", "build_coinbase", "issue_invoice", "process_invoice", "crash"}
 TOther == /\ l <= Len(Rec) /\ Rec[l].ev \notin Known
           /\ Step(hv)
 
 TInit == /\ l = 1 /\ st = [w |-> <<>>, chain |-> <<>>, pool |-> {}, body |-> <<>>, reg |-> <<>>, nrep |-> <<>>]
-         /\ hv = EmptyHist({}) /\ aux = [nodeUp |-> TRUE, dirty |-> {}]
+         /\ hv = EmptyHist({}) /\ aux = [nodeUp |-> TRUE, dirty |-> {}, pre |-> <<>>, hvpre |-> EmptyHist({}), ope |-> <<>>]
 TNext == \/ TReset \/ TInitSend \/ TLock \/ TReceive \/ TFinalize \/ TCancel \/ TPost \/ TMine \/ TNode
-         \/ TRefresh \/ TAccount \/ TBuildCoinbase \/ TOther
+         \/ TRefresh \/ TAccount \/ TBuildCoinbase \/ TIssueInvoice \/ TProcessInvoice \/ TCrash \/ TOther
 TSpec == TInit /\ [][TNext]_tvars
 
 \* every line must have been consumed (the spec has no way to get stuck other
